@@ -29,6 +29,26 @@ pub fn system_time_to_local(time: std::time::SystemTime) -> Option<NaiveDateTime
     }
 }
 
+/// The calendar date written inside a text, whatever follows it (`2024-02-29 1080p.mkv`):
+/// for the functions that extract a part of the date. Other spellings go through `parse_datetime`.
+pub fn parse_date(s: &str) -> Option<NaiveDate> {
+    if let Ok((start, _)) = parse_datetime(s) {
+        return Some(start.date());
+    }
+
+    let cap = DATE_REGEX.captures(s)?;
+
+    // digits that merely follow the date are no time of day; what is written as one (`24:00`) is, and is wrong
+    let rest = s[cap.get(5)?.end()..].as_bytes();
+    let rest = rest.strip_prefix(b" ").unwrap_or(rest);
+    let digits = rest.iter().take_while(|b| b.is_ascii_digit()).count();
+    if (1..=2).contains(&digits) && rest.get(digits) == Some(&b':') {
+        return None;
+    }
+
+    NaiveDate::from_ymd_opt(cap[1].parse().ok()?, cap[3].parse().ok()?, cap[5].parse().ok()?)
+}
+
 pub fn parse_datetime(s: &str) -> Result<(NaiveDateTime, NaiveDateTime), String> {
     if s == "today" {
         let date = Local::now().date_naive();
